@@ -59,23 +59,13 @@ def r6(ctx: Ctx) -> None:
              "_read_datafile_table", "_iter_file_batches", "_get_current_schema", "current_snapshot", "snapshots", "snapshot_by_id",
              "time_travel"]
     bad = []
+    from .common import state_writes
     for name in roots:
         m = table.methods.get(name)
         if m is None:
             continue
-        for f in [m] + list(m.nested.values()):
-            for n in ctx.cfg(f).nodes:
-                if n.kind == "stmt" and isinstance(n.ast, (ast.Assign, ast.AugAssign, ast.AnnAssign)):
-                    tg = n.ast.targets if isinstance(n.ast, ast.Assign) else [n.ast.target]
-                    for t in tg:
-                        base = t.value if isinstance(t, ast.Subscript) else t
-                        if isinstance(base, ast.Attribute) and isinstance(base.value, ast.Name) and base.value.id == "self":
-                            bad.append(f"{f.file}:{n.lineno} {name}: `{n.text[:60]}`")
-                if n.kind == "call" and isinstance(n.ast, ast.Call) and isinstance(n.ast.func, ast.Attribute) \
-                        and n.ast.func.attr in ("setdefault", "update", "append", "add", "pop", "clear", "move_to_end", "popitem") \
-                        and isinstance(n.ast.func.value, ast.Attribute) and isinstance(n.ast.func.value.value, ast.Name) \
-                        and n.ast.func.value.value.id == "self":
-                    bad.append(f"{f.file}:{n.lineno} {name}: `{n.text[:60]}`")
+        for n, what in state_writes(ctx, m):
+            bad.append(f"{m.file}:{n.lineno} {name}: {what} in `{n.text[:60]}`")
     ctx.ob("C02.R6", table.methods["row_count"], "no read-path method mutates the Table handle", None, not bad,
            "every read resolves the pointer afresh; a per-handle cache keyed by anything but the resolved metadata file itself "
            "(e.g. last_sequence_number, which a snapshot deletion does not bump) returns a snapshot that is no longer current",
